@@ -629,14 +629,15 @@ pub fn derive_key(phc: &Phc, password: &[u8]) -> Result<Vec<u8>, String> {
                 0x13 => argon2::Version::V0x13,
                 v => return Err(format!("argon2 version {}", v)),
             };
-            let (m, t, p) = (get("m").ok_or("m missing")?, get("t").ok_or("t missing")?, get("p").ok_or("p missing")?);
+            // a parameter that is not recorded has the default of the reference implementation
+            let (m, t, p) = (get("m").unwrap_or(19456), get("t").unwrap_or(2), get("p").unwrap_or(1));
             let params = argon2::Params::new(m, t, p, Some(32)).map_err(|e| e.to_string())?;
             let mut out = vec![0u8; 32];
             argon2::Argon2::new(alg, ver, params).hash_password_into(password, &phc.salt, &mut out).map_err(|e| e.to_string())?;
             Ok(out)
         }
         "pbkdf2-sha256" | "pbkdf2-sha512" => {
-            let rounds = get("i").ok_or("i missing")?;
+            let rounds = get("i").unwrap_or(600_000);
             let l = get("l").unwrap_or(32) as usize;
             if l != 32 {
                 return Err(format!("key length {} is not 32", l));
